@@ -635,5 +635,167 @@ theorem rule_slice_zero (hz : ∀ a : α, Scalar.mul Scalar.zero a = Scalar.zero
 
 end slice
 
+/-! ## 5. Concat -/
+
+/-- the complete window of the Concat rule: `[base, base+len)` at `dim`, the whole dimension elsewhere -/
+def catWin : Nat → Nat → Nat → List Nat → List (Nat × Nat)
+  | _, _, _, [] => []
+  | 0, base, len, _ :: ds => (base, base + len) :: ds.map (fun d => (0, d))
+  | dim + 1, base, len, d :: ds => (0, d) :: catWin dim base len ds
+
+/-- add `b` to coordinate `k` -/
+def addAt : Nat → Nat → List Nat → List Nat
+  | _, _, [] => []
+  | 0, b, j :: js => (j + b) :: js
+  | k + 1, b, j :: js => j :: addAt k b js
+
+theorem completeIndex_zeros : ∀ (l : List IRange) (ds : List Nat), (∀ r ∈ l, r = ((0 : Int), (0 : Int))) →
+    completeIndex (natRanges l) ds = ds.map (fun d => (0, d))
+  | _, [], _ => by simp [completeIndex]
+  | [], d :: ds, _ => by
+    have ih := completeIndex_zeros [] ds (by simp)
+    simp only [natRanges, List.map_nil] at ih
+    simp [natRanges, completeIndex, ih]
+  | r :: l, d :: ds, h => by
+    have ih := completeIndex_zeros l ds (fun x hx => h x (by simp [hx]))
+    have hr : r = (0, 0) := h r (by simp)
+    simp only [natRanges] at ih
+    simp [natRanges, completeIndex, hr, ih]
+
+theorem range_map_succ {β : Type} (g : Nat → β) (n : Nat) :
+    (List.range (n + 1)).map g = g 0 :: (List.range n).map (fun i => g (i + 1)) := by
+  rw [List.range_succ_eq_map]
+  simp [List.map_map, Function.comp_def]
+
+theorem completeIndex_oneRange : ∀ (dim base len : Nat) (ds : List Nat) (g : Nat → IRange), 0 < len →
+    g dim = ((base : Int), ((base + len : Nat) : Int)) → (∀ i, i ≠ dim → g i = (0, 0)) →
+    completeIndex (natRanges ((List.range ds.length).map g)) ds = catWin dim base len ds
+  | _, _, _, [], _, _, _, _ => by simp [completeIndex, catWin]
+  | 0, base, len, d :: ds, g, hl, hg, hz => by
+    rw [List.length_cons, range_map_succ, hg]
+    have hrest := completeIndex_zeros ((List.range ds.length).map (fun i => g (i + 1))) ds (by
+      intro r hr
+      obtain ⟨i, _, rfl⟩ := List.mem_map.mp hr
+      exact hz (i + 1) (by omega))
+    simp only [natRanges, List.map_cons, completeIndex, catWin] at hrest ⊢
+    have hne : ¬ ((base : Int).toNat = 0 ∧ ((base + len : Nat) : Int).toNat = 0) := by omega
+    rw [if_neg hne, hrest]
+  | dim + 1, base, len, d :: ds, g, hl, hg, hz => by
+    rw [List.length_cons, range_map_succ, hz 0 (by omega)]
+    have ih := completeIndex_oneRange dim base len ds (fun i => g (i + 1)) hl hg
+      (fun i hi => hz (i + 1) (by omega))
+    simp only [natRanges, List.map_cons, completeIndex, catWin] at ih ⊢
+    rw [ih]
+    simp
+
+/-- the index the Concat constructor builds, completed against the result dims -/
+theorem completeIndex_concatIndex (dim base len : Nat) (ds : List Nat) (hl : 0 < len) :
+    completeIndex (natRanges (concatIndex ds.length dim base len)) ds = catWin dim base len ds := by
+  unfold concatIndex
+  exact completeIndex_oneRange dim base len ds _ hl (by simp) (fun i hi => by simp [hi])
+
+theorem validSliceIndex_concatIndex : ∀ (dim base len : Nat) (ds : List Nat), 0 < len → dim < ds.length →
+    base + len ≤ ds.getD dim 0 → validSliceIndex (concatIndex ds.length dim base len) ds = true := by
+  intro dim base len ds hl hdim hb
+  simp only [validSliceIndex, concatIndex, List.length_map, List.length_range, Nat.le_refl, decide_true, Bool.true_and,
+    List.all_eq_true]
+  intro p hp
+  obtain ⟨i, hi1, hi2⟩ := List.mem_iff_getElem.mp hp
+  have hi : i < ds.length := by
+    simp only [List.length_zip, List.length_map, List.length_range, Nat.min_self] at hi1; exact hi1
+  simp only [List.getElem_zip, List.getElem_map, List.getElem_range] at hi2
+  rw [← hi2]
+  by_cases hid : i = dim
+  · have hgd : ds.getD dim 0 = ds[i] := by
+      subst hid
+      simp [List.getD, List.getElem?_eq_getElem hi]
+    rw [hgd] at hb
+    simp only [hid, if_true, validRange]
+    have h0 : ¬ (((base : Int) == 0 && ((base + len : Nat) : Int) == 0) = true) := by
+      simp only [Bool.and_eq_true, beq_iff_eq]; omega
+    rw [if_neg h0]
+    have h1' : ¬ ((base : Int) ≥ ((base + len : Nat) : Int)) := by omega
+    rw [if_neg h1']
+    have e1 : decide ((base : Int) < 0) = false := by simp
+    have e2 : decide ((base : Int) ≥ (ds[i] : Int)) = false := by simp; omega
+    have e3 : decide (((base + len : Nat) : Int) < 1) = false := by simp; omega
+    have e4 : decide (((base + len : Nat) : Int) ≥ (ds[i] : Int) + 1) = false := by simp; omega
+    subst hid
+    rw [e1, e2, e3, e4]; rfl
+  · simp [hid, validRange]
+
+theorem sliceDims_catWin : ∀ (dim base len : Nat) (ds : List Nat), dim < ds.length →
+    sliceDims (catWin dim base len ds) = ds.set dim len
+  | _, _, _, [], h => by simp at h
+  | 0, base, len, d :: ds, _ => by
+    simp only [catWin, sliceDims, List.map_cons, List.map_map, List.set_cons_zero]
+    congr 1
+    · omega
+    · conv => rhs; rw [← List.map_id ds]
+      apply List.map_congr_left; intro x _; simp
+  | dim + 1, base, len, d :: ds, h => by
+    have ih := sliceDims_catWin dim base len ds (by simpa using h)
+    simp only [sliceDims] at ih
+    simp only [catWin, sliceDims, List.map_cons, List.set_cons_succ, ih]
+    simp
+
+theorem inBlock_whole : ∀ {ds js : List Nat}, Valid ds js → InBlock (ds.map (fun d => (0, d))) js
+  | _, _, .nil => .nil
+  | _, _, .cons h hv => by
+    simp only [List.map_cons]
+    exact .cons (by omega) (inBlock_whole hv)
+
+theorem shiftIdx_whole : ∀ {ds js : List Nat}, Valid ds js → shiftIdx (ds.map (fun d => (0, d))) js = js
+  | _, _, .nil => rfl
+  | _, _, .cons h hv => by simp [shiftIdx, shiftIdx_whole hv]
+
+theorem inBlock_catWin : ∀ (dim base len : Nat) {ds js : List Nat}, dim < ds.length → Valid (ds.set dim len) js →
+    InBlock (catWin dim base len ds) js ∧ shiftIdx (catWin dim base len ds) js = addAt dim base js
+  | _, _, _, [], _, h, _ => by simp at h
+  | 0, base, len, d :: ds, _, _, hv => by
+    simp only [List.set_cons_zero] at hv
+    cases hv with
+    | cons hj hv' =>
+      simp only [catWin, shiftIdx, addAt, shiftIdx_whole hv', and_true]
+      exact .cons (by omega) (inBlock_whole hv')
+  | dim + 1, base, len, d :: ds, _, h, hv => by
+    simp only [List.set_cons_succ] at hv
+    cases hv with
+    | cons hj hv' =>
+      obtain ⟨h1, h2⟩ := inBlock_catWin dim base len (by simpa using h) hv'
+      simp only [catWin, shiftIdx, addAt, h2, Nat.add_zero, and_true]
+      exact .cons (by omega) h1
+
+section concat
+variable [Scalar α]
+
+/-- **`gradtrack.Concat`: `gradFn_k = y.Gradient().Slice(index_k)`**, `index_k = concatIndex rank dim base_k len_k`
+    with `base_k` the sum of the sizes along `dim` of the operands before `x_k` and `len_k` the size of `x_k`
+    (`Qeep.concatEdges`). Forward (`C06.concat_get`): the result holds `x_k[j]` at index `j` with `base_k` added to
+    coordinate `dim` — each operand is embedded as one block. The closure succeeds on every well-formed upstream
+    gradient whose size along `dim` covers the block, returns the dims of `gy` with `dim` replaced by `len_k` (the shape
+    of `x_k`), and its element at every valid local index `j` is `gy[j with base_k added at dim]`: selection of the block,
+    the adjoint of embedding it. -/
+theorem rule_concat (bm : BMode) (H : Heap α) (gy : Tensor α) (dim base len : Nat) (wg : gy.WF)
+    (hl : 0 < len) (hdim : dim < gy.dims.length) (hb : base + len ≤ gy.dims.getD dim 0) :
+    ∃ r, evalRule bm H gy (.concatI (concatIndex gy.dims.length dim base len)) = .ok r ∧
+      r.dims = gy.dims.set dim len ∧ r.WF ∧
+      ∀ j, Valid (gy.dims.set dim len) j → r.at? j = gy.at? (addAt dim base j) := by
+  have hv := validSliceIndex_concatIndex dim base len gy.dims hl hdim hb
+  obtain ⟨data, e, hlen, hget⟩ := C06.slice_get gy wg _ (C09.rangesOK_of_valid _ _ hv)
+  rw [completeIndex_concatIndex dim base len gy.dims hl, sliceDims_catWin dim base len gy.dims hdim] at e hlen hget
+  refine ⟨⟨gy.dims.set dim len, data⟩, ?_, rfl, ⟨hlen, ?_⟩, ?_⟩
+  · simp only [evalRule, vSlice]
+    rw [if_pos hv, e]; rfl
+  · intro d hd
+    rcases List.mem_or_eq_of_mem_set hd with h | h
+    · exact wg.2 d h
+    · omega
+  · intro j hj
+    obtain ⟨h1, h2⟩ := inBlock_catWin dim base len hdim hj
+    rw [hget j h1, h2]
+
+end concat
+
 end C02x
 end Qeep
